@@ -4,9 +4,12 @@
 
   The gas carve-out: a failed transaction advances the running gas total of the block and nothing
   else (`failed_tx_noop`). Hence removing the failed transactions of a block changes nothing else
-  as long as the block's meter does not run out (`remove_failed_same_block`); the hypotheses on
-  the handlers follow from their syntax (`RoomBlind.of_syntax`), a concrete block meets all of
-  them (`remove_failed_instance`), and without room the claim fails (`remove_failed_needs_room`).
+  (`remove_failed_same_block`): the block hooks run unmetered (359026c, fc77c5a), so the level the
+  failed transactions left behind is seen by later TRANSACTIONS only, and one that did not fail ran
+  below the limit throughout. The hypotheses on the handlers follow from their syntax
+  (`RoomBlind.of_syntax`), a concrete block meets all of them (`remove_failed_instance`), and the
+  block that was a counterexample while the EndBlock hooks were metered is none any more
+  (`remove_failed_former_counterexample_holds`).
 -/
 import OLP.Shell.LemmasGas
 
@@ -58,11 +61,11 @@ theorem deliver_never_touches_tree (n : Node K V C T H D) (tx : T) :
 
 /-! ### removing the failed transactions
 
-  The hypotheses are the ones real handlers meet (`RoomBlind`, `HooksRoomBlind`; both follow from
-  the SYNTAX of the programs by `RoomBlind.of_syntax` / `HooksRoomBlind.of_syntax`: no `.gas` node
-  outside the fee step, no negative `.burn`), together with the premise that the block's gas meter
-  does not run out. They are all proved for a concrete block below (`Non-vacuity`), and
-  `remove_failed_needs_room` shows that the premise on the meter cannot be dropped. -/
+  The hypotheses are the ones real handlers meet (`RoomBlind`, which follows from the SYNTAX of the
+  programs by `RoomBlind.of_syntax`: no `.gas` node outside the fee step, no negative `.burn`).
+  Nothing is asked of the block hooks beyond `AllAimed`, and nothing of the block's gas meter: the
+  hooks run on the unmetered view of the deliver state (`runHook`). All hypotheses are proved for a
+  concrete block below (`Non-vacuity`). -/
 
 /-- removing every failed transaction from a list of transactions yields the same results for
     the remaining ones and the same state up to the gas level, which the failed ones can only
@@ -79,14 +82,30 @@ theorem remove_failed_deliverAll (hb : RoomBlind cfg hs) (hnv : DeliverNoVset hs
     r'.2 = r.2.filter (·.ok) ∧ ∃ d, 0 ≤ d ∧ ShiftNode d r'.1 r.1 :=
   deliverAll_room_shift cfg hs e hb hnv txs 0 n n (Int.le_refl 0) (ShiftNode.rfl0 n) hs0
 
-/-- block level: if the gas meter of the FULL block (failed transactions included) still has room
-    when EndBlock has run, removing the failed transactions gives the same surviving results, the
-    same commit write log (hence the same application hash), the same tree, volatile memory and
-    height. (Room after EndBlock implies room after the last transaction and after every earlier
-    one, `block_room_after_txs`: nothing lowers the counter.) -/
-theorem remove_failed_same_block (hb : RoomBlind cfg hs) (hhb : HooksRoomBlind cfg hs)
-    (hnv : DeliverNoVset hs) (ha : AllAimed hs) (n : Node K V C T H D) (txs : List T)
-    (hroom : hasRoom (blockEndGas cfg hs e n txs)) :
+/-- EndBlock leaves the block's gas meter exactly where the last transaction left it, and
+    BeginBlock hands the transactions a meter at 0: the block hooks run unmetered -/
+theorem hooks_keep_meter (n : Node K V C T H D) :
+    (endBlock cfg hs e n).dlv.gas = n.dlv.gas ∧ (endBlock cfg hs e n).dlv.metered = n.dlv.metered ∧
+    (beginBlock cfg hs e n).dlv.gas = ⟨hs.gasLimit, 0⟩ ∧ (beginBlock cfg hs e n).dlv.metered = true :=
+  ⟨(endBlock_gas cfg hs e n).1, (endBlock_gas cfg hs e n).2, (beginBlock_gas cfg hs e n).1,
+   (beginBlock_gas cfg hs e n).2⟩
+
+/-- … so the meter at the end of the block is the meter after its last transaction -/
+theorem blockEndGas_eq_after_txs (n : Node K V C T H D) (txs : List T) :
+    blockEndGas cfg hs e n txs = (deliverAll cfg hs e (beginBlock cfg hs e n) txs).1.dlv.gas :=
+  (endBlock_gas cfg hs e _).1
+
+/-- block level: removing the failed transactions of a block gives the same surviving results,
+    the same commit write log (hence the same application hash), the same tree, volatile memory and
+    height — WHATEVER the level of the block's gas meter, used up or not.
+
+    No premise on the meter: the transactions are covered by `remove_failed_deliverAll`, and the
+    EndBlock hooks, which run on the unmetered view of the deliver state, do the same from two
+    nodes that differ in the level of the meter only (`endBlock_shift`). `AllAimed` is needed for
+    that last step: the block without its failed transactions may deliver nothing at all, and a
+    hook that does not re-aim its stores would then run against the check state instead. -/
+theorem remove_failed_same_block (hb : RoomBlind cfg hs)
+    (hnv : DeliverNoVset hs) (ha : AllAimed hs) (n : Node K V C T H D) (txs : List T) :
     let r := execBlock cfg hs e n txs
     let r' := execBlock cfg hs e n (survivors txs r.2.results)
     r'.2.results = r.2.results.filter (·.ok) ∧ r'.2.log = r.2.log ∧
@@ -94,22 +113,22 @@ theorem remove_failed_same_block (hb : RoomBlind cfg hs) (hhb : HooksRoomBlind c
   have hb0 := (beginBlock_frame cfg hs e n).2.2.2
   obtain ⟨h1, d, hd, h2⟩ := deliverAll_room_shift cfg hs e hb hnv txs 0 _ _ (Int.le_refl 0)
     (ShiftNode.rfl0 (beginBlock cfg hs e n)) hb0
-  have h3 := endBlock_room_shift cfg hs e hhb ha d hd _ _ h2 hroom
+  have h3 := endBlock_shift cfg hs e ha d _ _ h2
   obtain ⟨c1, c2, c3⟩ := commit_shift cfg hs d _ _ h3
   refine ⟨h1, ?_, c1.symm, c2.symm, c3.symm⟩
   exact congrArg (fun t : Tree K V => t.log.drop n.tree.log.length) c1.symm
 
-/-- the premise of `remove_failed_same_block` covers the whole block: the meter had room after
-    the last transaction (hence, by `deliverAll_mono`, after each one) -/
-theorem block_room_after_txs (hhb : HooksRoomBlind cfg hs) (ha : AllAimed hs)
+/-- a block whose meter has room at its end had room after its last transaction (hence, by
+    `deliverAll_mono`, after each one). With the hooks unmetered this is `blockEndGas_eq_after_txs`
+    read from right to left; no hypothesis on the hooks is left. -/
+theorem block_room_after_txs
     (n : Node K V C T H D) (txs : List T) (hroom : hasRoom (blockEndGas cfg hs e n txs)) :
     hasRoom (deliverAll cfg hs e (beginBlock cfg hs e n) txs).1.dlv.gas := by
-  obtain ⟨m1, m2⟩ := endBlock_mono cfg hs e hhb ha (deliverAll cfg hs e (beginBlock cfg hs e n) txs).1
-  unfold blockEndGas at hroom
-  unfold hasRoom at *
-  omega
+  rw [← blockEndGas_eq_after_txs]
+  exact hroom
 
-/-- the meter matters at EndBlock only: an application without EndBlock hooks needs no premise -/
+/-- an application without EndBlock hooks does not even need `AllAimed` (its BeginBlock hooks may
+    be aimed anywhere: both blocks begin from the same node) -/
 theorem remove_failed_same_block_of_no_hooks (hb : RoomBlind cfg hs) (hnv : DeliverNoVset hs)
     (hne : ∀ h, hs.endb h = []) (n : Node K V C T H D) (txs : List T) :
     let r := execBlock cfg hs e n txs
@@ -156,8 +175,9 @@ example : (deliverTx exCfg exH () exN 0).2.ok = false ∧ (deliverTx exCfg exH (
   Validate burns the signature-check gas. ProcessDeliver reads key 1 (a read of the metered block
   cache), writes keys 1 and 2 into the session and then — transaction 0 only — burns more gas and
   fails: a failure after partial writes. The fee step reports the gas used since the start level.
-  One EndBlock hook, aimed at the deliver state, reads key 1 (metered) and records its value under
-  key 9 (a metered write, outside any session). The block gas limit is a parameter. -/
+  One EndBlock hook, aimed at the deliver state, reads key 1 and records its value under key 9 (a
+  read and a write outside any session, on the unmetered view of the deliver state: served whatever
+  the level of the block's meter, and charged to nobody). The block gas limit is a parameter. -/
 
 def rmCfg : Cfg Nat Nat := { tomb := 0, vlen := fun _ => 1, lt := fun a b => decide (a < b) }
 
@@ -191,19 +211,6 @@ theorem rm_roomBlind (limit : Int) : RoomBlind rmCfg (rmH limit) := by
       intro _ _ _
       split <;> simp [Prog.BurnNonneg]
 
-theorem rm_hooksRoomBlind (limit : Int) : HooksRoomBlind rmCfg (rmH limit) := by
-  apply HooksRoomBlind.of_syntax
-  intro h hk hm
-  simp only [rmH, List.mem_singleton] at hm
-  subst hm
-  constructor
-  · simp only [Prog.NoGasRead]
-    intro r
-    split <;> simp [Prog.NoGasRead]
-  · simp only [Prog.BurnNonneg]
-    intro r
-    split <;> simp [Prog.BurnNonneg]
-
 theorem rm_noVset (limit : Int) : DeliverNoVset (rmH limit) := by
   intro tx
   refine ⟨by simp [rmH, Prog.NoVset], ?_, fun g => by simp [rmH, Prog.NoVset]⟩
@@ -220,11 +227,9 @@ theorem rm_aimed (limit : Int) : AllAimed (rmH limit) := by
     subst hm
     rfl
 
-/-- with a limit of 10000 the block `[5, 0, 7]` ends with room -/
-theorem rm_room : hasRoom (blockEndGas rmCfg (rmH 10000) () (rmN 10000) [5, 0, 7]) := by decide
-
 /-- what the block does: transaction 0 fails, after it wrote keys 1 and 2 into its session
-    (which is discarded), the other two succeed; 556 + 27 + 27 + 242 units of gas are consumed -/
+    (which is discarded), the other two succeed; 25 + 527 + 27 units of gas are consumed by the
+    transactions, none by the EndBlock hook -/
 theorem rm_block_facts :
     let r := execBlock rmCfg (rmH 10000) () (rmN 10000) [5, 0, 7]
     r.2.results = [⟨true, some 5, 25⟩, ⟨false, none, 527⟩, ⟨true, some 7, 27⟩] ∧
@@ -232,7 +237,7 @@ theorem rm_block_facts :
     (txRun rmCfg (rmH 10000) () 0 ((Ov.fresh 10000).toSt (rmN 10000).tree).begin (fun _ => none)).2.1.sess
       = some [(1, 1), (2, 1)] ∧
     r.2.log = [.set 1 8, .set 2 8, .set 9 8, .save] ∧
-    blockEndGas rmCfg (rmH 10000) () (rmN 10000) [5, 0, 7] = ⟨10000, 821⟩ := by
+    blockEndGas rmCfg (rmH 10000) () (rmN 10000) [5, 0, 7] = ⟨10000, 579⟩ := by
   dsimp only
   decide
 
@@ -242,40 +247,53 @@ theorem remove_failed_instance :
     let r' := execBlock rmCfg (rmH 10000) () (rmN 10000) (survivors [5, 0, 7] r.2.results)
     r'.2.results = r.2.results.filter (·.ok) ∧ r'.2.log = r.2.log ∧
     r'.1.tree = r.1.tree ∧ r'.1.vol = r.1.vol ∧ r'.1.height = r.1.height :=
-  remove_failed_same_block rmCfg (rmH 10000) () (rm_roomBlind 10000) (rm_hooksRoomBlind 10000)
-    (rm_noVset 10000) (rm_aimed 10000) (rmN 10000) [5, 0, 7] rm_room
+  remove_failed_same_block rmCfg (rmH 10000) () (rm_roomBlind 10000)
+    (rm_noVset 10000) (rm_aimed 10000) (rmN 10000) [5, 0, 7]
 
 /-- … and its conclusion, spelled out and recomputed: the block without transaction 0 -/
 example :
     (execBlock rmCfg (rmH 10000) () (rmN 10000) [5, 7]).2.results =
       [⟨true, some 5, 25⟩, ⟨true, some 7, 27⟩] ∧
     (execBlock rmCfg (rmH 10000) () (rmN 10000) [5, 7]).2.log = [.set 1 8, .set 2 8, .set 9 8, .save] ∧
-    blockEndGas rmCfg (rmH 10000) () (rmN 10000) [5, 7] = ⟨10000, 294⟩ := by
+    blockEndGas rmCfg (rmH 10000) () (rmN 10000) [5, 7] = ⟨10000, 52⟩ := by
   decide
 
-/-! ### the premise on the meter is needed -/
+/-! ### no premise on the meter -/
 
-/-- WITHOUT room the block-level claim is false in the model. Same handlers (all other hypotheses
-    of `remove_failed_same_block` hold: `rm_roomBlind 300` etc.), block gas limit 300: the failed
-    transaction 0 uses up the meter, so in the full block the EndBlock hook's read is refused and
-    it writes nothing; without transaction 0 the hook is served and writes key 9. The surviving
-    results agree, the commit logs (hence the application hashes) do not. -/
-theorem remove_failed_needs_room :
+/-- The block that WAS a counterexample while the EndBlock hooks were metered. Same handlers, block
+    gas limit 300: the failed transaction 0 uses up the meter (552 of 300). The EndBlock hook's
+    read used to be refused then, it wrote nothing, and the commit log of the full block lacked
+    `.set 9 6` (the former `remove_failed_needs_room`). The hook now runs unmetered: it is served
+    with and without transaction 0, the two commit logs are the same list, and the conclusion of
+    `remove_failed_same_block` holds although the meter has no room. -/
+theorem remove_failed_former_counterexample_holds :
     let r := execBlock rmCfg (rmH 300) () (rmN 300) [5, 0]
     let r' := execBlock rmCfg (rmH 300) () (rmN 300) (survivors [5, 0] r.2.results)
     ¬ hasRoom (blockEndGas rmCfg (rmH 300) () (rmN 300) [5, 0]) ∧
+    blockEndGas rmCfg (rmH 300) () (rmN 300) [5, 0] = ⟨300, 552⟩ ∧
+    survivors [5, 0] r.2.results = [5] ∧
+    r.2.results = [⟨true, some 5, 25⟩, ⟨false, none, 527⟩] ∧
     r'.2.results = r.2.results.filter (·.ok) ∧
-    r.2.log = [.set 1 6, .set 2 6, .save] ∧ r'.2.log = [.set 1 6, .set 2 6, .set 9 6, .save] ∧
-    r'.2.log ≠ r.2.log := by
+    r.2.log = [.set 1 6, .set 2 6, .set 9 6, .save] ∧ r'.2.log = [.set 1 6, .set 2 6, .set 9 6, .save] ∧
+    r'.2.log = r.2.log := by
   dsimp only
   decide
 
+/-- … as an instance of the theorem (limit 300, every hypothesis proved) -/
+theorem remove_failed_former_counterexample_instance :
+    let r := execBlock rmCfg (rmH 300) () (rmN 300) [5, 0]
+    let r' := execBlock rmCfg (rmH 300) () (rmN 300) (survivors [5, 0] r.2.results)
+    r'.2.results = r.2.results.filter (·.ok) ∧ r'.2.log = r.2.log ∧
+    r'.1.tree = r.1.tree ∧ r'.1.vol = r.1.vol ∧ r'.1.height = r.1.height :=
+  remove_failed_same_block rmCfg (rmH 300) () (rm_roomBlind 300)
+    (rm_noVset 300) (rm_aimed 300) (rmN 300) [5, 0]
+
 /-- why `failed_tx_noop` carves out the gas level: a failed transaction that uses up the meter
-    makes a later one fail that succeeds without it (its read is refused, its handler still
+    makes a later TRANSACTION fail that succeeds without it (its read is refused, its handler still
     returns, and `txDeliverer` fails it because the block gas is used up). That later transaction
-    has then failed too, and `remove_failed_*` remove it with the first: this is why
-    `remove_failed_deliverAll` needs no premise on the meter while removing ONE failed
-    transaction would. -/
+    has then failed too, and `remove_failed_*` remove it with the first: this is why the removal
+    theorems remove ALL failed transactions while removing ONE would need a premise on the meter.
+    (Transactions only: the block hooks are not starved, they run unmetered.) -/
 theorem failed_tx_starves_later :
     let n := beginBlock rmCfg (rmH 300) () (rmN 300)
     (deliverAll rmCfg (rmH 300) () n [0, 7]).2 = [⟨false, none, 525⟩, ⟨false, some 7, 5⟩] ∧
